@@ -137,8 +137,9 @@ func realChild(run *mon.Run, r *mon.Rand, idx, nHist, nBlocks int) {
 		first := true
 		schist.EvdbRealRun(w, o, r.Fork(fmt.Sprintf("hist%d", j)), tag, nBlocks, func(b *schist.EvdbRealBlock) {
 			round++
-			judgeReal(run, edb, lg, b, round, counts, first && idx == 0 && j == 0)
-			first = false
+			if judgeReal(run, edb, lg, b, round, counts, first && idx == 0 && j == 0) {
+				first = false
+			}
 		})
 		run.Count("real:histories", 1)
 		run.Checkpoint()
@@ -174,14 +175,14 @@ func realWitness(b *schist.EvdbRealBlock, or realOracle) map[string]interface{} 
 	return map[string]interface{}{"history": b.History, "round": b.Round, "block": b.Hash, "workload_shape": b.Shape, "transactions": txs, "reference_from_transactions": or, "bridge_events_emitted": evs}
 }
 
-func judgeReal(run *mon.Run, edb *event.EventDb, lg *capture, b *schist.EvdbRealBlock, round int64, counts map[string]int64, sample bool) {
+func judgeReal(run *mon.Run, edb *event.EventDb, lg *capture, b *schist.EvdbRealBlock, round int64, counts map[string]int64, sample bool) (judged bool) {
 	or, ok := realRead(run, b, counts)
 	if !ok {
 		run.Count("real:blocks-not-judged", 1)
-		return
+		return false
 	}
 	if len(or.Burns) == 0 && len(or.Mints) == 0 && or.Refused == 0 {
-		return // set-up block without bridge transfers
+		return false // set-up block without bridge transfers
 	}
 	run.Eval(1)
 	run.Count("real:blocks", 1)
@@ -240,7 +241,7 @@ func judgeReal(run *mon.Run, edb *event.EventDb, lg *capture, b *schist.EvdbReal
 	class := "other"
 	switch {
 	case twoClientsOneAddr && oneClientTwoAddrs:
-		class = "two-clients-one-address+one-client-two-addresses"
+		class = "both-sharings"
 	case twoClientsOneAddr:
 		class = "two-clients-one-address"
 	case oneClientTwoAddrs:
@@ -274,7 +275,7 @@ func judgeReal(run *mon.Run, edb *event.EventDb, lg *capture, b *schist.EvdbReal
 	out, err := event.VerifMergeEvents(round, b.Hash, cp)
 	if err != nil {
 		violate(run, "C20:real-emission:merge-fails", fmt.Sprintf("mergeEvents returns an error for the events of a real block: %v", err), rp())
-		return
+		return true
 	}
 	sm := summarise(out)
 	var bad []string
@@ -285,7 +286,7 @@ func judgeReal(run *mon.Run, edb *event.EventDb, lg *capture, b *schist.EvdbReal
 	}
 	sort.Strings(bad)
 	if len(bad) > 0 {
-		violate(run, "C20:real-emission:burn-total-of-burner-wrong-after-merge:"+class, fmt.Sprintf("real block (%d successful burns, class %s): %v", len(or.Burns), class, bad), rp())
+		violate(run, "C20:real-emission:burner-total-wrong-after-merge:"+class, fmt.Sprintf("real block (%d successful burns, class %s): %v", len(or.Burns), class, bad), rp())
 	}
 	for k, v := range sm.sums {
 		if tagOf(k) == "TagAuthorizerBurn" && v != 0 {
@@ -302,7 +303,7 @@ func judgeReal(run *mon.Run, edb *event.EventDb, lg *capture, b *schist.EvdbReal
 		}
 	}
 	if lost > 0 {
-		violate(run, "C20:real-emission:burn-ticket-missing-after-merge:"+class, fmt.Sprintf("real block with %d successful burns: %d of them have no burn ticket (address, amount, nonce, transaction) in the merged events", len(or.Burns), lost), rp())
+		violate(run, "C20:real-emission:ticket-missing-after-merge:"+class, fmt.Sprintf("real block with %d successful burns: %d of them have no burn ticket (address, amount, nonce, transaction) in the merged events", len(or.Burns), lost), rp())
 	}
 	bad = nil
 	for id, wv := range wantMint {
@@ -341,7 +342,7 @@ func judgeReal(run *mon.Run, edb *event.EventDb, lg *capture, b *schist.EvdbReal
 			lg.take()
 			if gerr != nil {
 				run.Inconclusive("GetBurnTickets failed: " + gerr.Error())
-				return
+				return true
 			}
 			have := map[string]int{}
 			for _, t := range rows {
@@ -391,4 +392,5 @@ func judgeReal(run *mon.Run, edb *event.EventDb, lg *capture, b *schist.EvdbReal
 	if sample {
 		run.Sample(map[string]interface{}{"layer": "real-emission", "block": blk.ID, "shape": b.Shape, "reference_from_transactions": or, "events_emitted": len(b.Events), "events_after_merge": len(out)})
 	}
+	return true
 }
